@@ -231,7 +231,7 @@ fn compare(mut m: Anim, mut b: Anim, ops: &[AOp]) -> Result<serde_json::Value, S
     for (n, op) in ops.iter().enumerate() {
         match *op {
             AOp::Adv(step) => {
-                let dt = match step { Step::Zero => 0.0, Step::Grid(n) => n as f32 / 512.0, Step::Arb(x) => x.max(0.0), Step::ToEnd { .. } | Step::ToEndCycles { .. } => 0.125 };
+                let dt = match step { Step::Zero => 0.0, Step::Grid(n) => n as f32 / 512.0, Step::Arb(x) => x.max(0.0), Step::ToEnd { .. } | Step::ToEndCycles { .. } | Step::ToEndUlps { .. } => 0.125 };
                 m.advance(dt);
                 b.advance(dt);
                 check(&m, &b, &format!("after op {n} advance({dt})"))?;
